@@ -577,6 +577,11 @@ func (x *X) indexAddr(fr *Frame, st *State, in *ssa.IndexAddr) SV {
 		p := x.ptrOf(x.val(fr, in.X), in.X.Type())
 		x.nilCheck(st, fr, p, in.Pos())
 		x.safety(st, fr, "index", mkAnd(x.ile(x.ic(0), i), x.ilt(i, x.ic(arr.Len()))), in.Pos())
+		if p.kind == pkGlobal || p.kind == pkLocal {
+			np := *p
+			np.arrIdx = i
+			return &np
+		}
 		return &PtrV{kind: pkElem, ref: p.ref, idx: i, typ: arr.Elem(), nonNil: true}
 	}
 	panic("indexAddr on " + in.X.Type().String())
